@@ -59,5 +59,5 @@ def check(tier, seed):
         'rule': 'one round trip per (set, seed, mode, message, context, rnd, sk provenance in {generated, round-tripped}, pk provenance in {generated, round-tripped, derived from either}); '
                 'non-trivial = signing succeeded and the signature was presented to verification under the stated provenance pair',
         'tie': 'correspondence + property oracle verify(sign(..)) = true on the crate'},
-        ['completeness for all inputs rests on the unproved refinement sign_internal/verify_internal = Algorithms 7/8 (C02, C03, C18) and on the MakeHint/UseHint lemma; '
-         'the theorems proved cover the rejection-loop exit conditions and the shared message representative'])
+        ['Lean: Algorithm 8 accepts what Algorithm 7 emits (signature_verifies_spec_partial) for the exact specifications that C03 / C02 prove equal to sign_internal / verify_internal; '
+         'one hypothesis of that theorem is not discharged in Lean - that the emitted bytes decode back to the (c~, z, h) that were encoded (sigDecode after sigEncode); the correspondence and verify(sign(..)) = true on the crate cover it on every run'])
